@@ -42,6 +42,10 @@ var preludeKinds = []struct{ name, src string }{
 	{"shorthand-object-properties", "{{ s1 = 1 }}{{ {s1,\n s1}.s1 }}\n"},
 	// a @dump whose argument fails shows the fault and lets the render go on
 	{"dump-of-a-failing-expression", "@dump(missing9.prop)\n@dump(1 / 0, nope9)\n"},
+	// strings whose first or last character is a line end, in both quote styles, next to empty ones
+	{"strings-that-start-with-a-line-end", "{{ \"\nheredoc\n\" }}{{ '\n' }}\n{{ \"\" + \"\r\nx\" }}\n"},
+	{"strings-that-end-with-a-line-end", "{{ \"x\n\" }}{{ 'a\\'\n' + '' }}{{ \"\n\n\" }}\n"},
+	{"comments-with-dashes", "{{-- a - b\n -- c -\n- --}}{{-- - --}}\n"},
 }
 
 type faultKind struct {
@@ -327,6 +331,12 @@ func lineTreeCase(c *core.Ctx, i int) {
 		"components/card.tw":  "<card>\n{{ t }}\n@slot\n</card>\n",
 		"plain.tw":            "plain page\n",
 		"broken/elsewhere.tw": "one\ntwo\n{{ nowhere_defined }}\n",
+		// siblings whose names continue another name with a character that sorts before the dot of the extension
+		"page-alt.tw":                "sibling of the page\n",
+		"plain+print.tw":             "sibling of plain\n",
+		"layouts/main-wide.tw":       "<wide>@reserve(\"body\")</wide>\n",
+		"components/card-header.tw":  "<h>{{ t }}</h>\n",
+		"broken/elsewhere (copy).tw": "a copy without the fault\n",
 	}
 	type variant struct {
 		name    string
@@ -416,6 +426,9 @@ func lineTreeCase(c *core.Ctx, i int) {
 		base := strings.TrimSuffix(k, ".tw")
 		if base == "page" {
 			base = pageName
+		}
+		if base == "page-alt" {
+			base = pageName + "-alt"
 		}
 		renamed[base+ext] = content
 	}
